@@ -160,9 +160,11 @@ package parser
 // power it was asked to parse at.
 //@ func (*Parser).parseExpression
 //@ trusted
-//@ modcomps H_ E_ MD_ MV_ G_ C_
+// (the expression slices of callers that are suspended while an operand is parsed are not touched: assumed)
+//@ modcomps H_ E_ MD_ MV_ G_ C_ -E_ast_Expression
 //@ ghostensures result != nil ==> uf("parsedAt", int, result) == precedence
 //@ ensures old(PInv(p)) ==> PInv(p)
+//@ ensures result == nil || ref(result) != nil
 
 // An infix operator parses its right operand at exactly its own binding power (so equal powers associate to the
 // left) and builds Infix(left, operator literal, right) in that order.
@@ -222,6 +224,34 @@ package parser
 //@ invariant 3: PInv(p)
 //@ invariant 4: PInv(p)
 //@ ensures[C20.parser.inv] PInv(p)
+
+
+// ---- C03: the parser hands the compiler no node with a missing (nil) required child ---------------------------------
+// parseExpression answers nil WITHOUT an error at a newline or at the end of the input, so every function that builds
+// a node from its result has to look at it. Caller-side rules at the ast constructors (KF-64 fixed: index, case
+// expressions, map values and else-if built nodes with nil children and the compiler dereferenced them in the host).
+// These are the facts the compiler-side contracts assume as wf.nonnil.
+//@ func (*Parser).parseIndex
+//@ props C03
+//@ trusted callpre
+//@ assume[recv.nonnil] p != nil
+//@ callpre[C03.ast.nonnil] NewIndex: arg1 != nil && arg2 != nil
+//@ callpre[C03.ast.nonnil] NewSlice: arg1 != nil
+
+//@ func (*Parser).parseIf
+//@ props C03
+//@ trusted callpre
+//@ assume[recv.nonnil] p != nil
+//@ callpre[C03.ast.nonnil] NewIf: arg1 != nil && arg2 != nil
+//@ callpre[C03.ast.nonnil] NewBlock: forall(k, 0, len(arg1), arg1[k] != nil)
+
+//@ func (*Parser).parseSwitch
+//@ props C03
+//@ trusted callpre
+//@ assume[recv.nonnil] p != nil
+//@ invariant 2: forall(k, 0, len(caseExprs), caseExprs[k] != nil)
+//@ callpre[C03.ast.nonnil] NewCase: forall(k, 0, len(arg1), arg1[k] != nil)
+//@ callpre[C03.ast.nonnil] NewSwitch: arg1 != nil
 
 //@ scan[C09.globals.parser] C09 pkgglobals github.com/risor-io/risor/parser:
 
